@@ -1,14 +1,25 @@
 //! Verification hooks (feature `verif-hooks`).
 //!
-//! `verif_hooks::sync` is a drop-in for the parts of `std::sync` used by the lazy partial cache.
-//! Its `Mutex` reports acquisition and release to an optional process-wide callback so that an
-//! external controlled scheduler can own the interleaving. Without a callback it is `std`'s.
+//! `verif_hooks::sync` is a drop-in for `std::sync`: everything is re-exported from `std` except
+//! `Mutex`, `RwLock` and the integer/bool atomics, which report every operation to an optional
+//! process-wide callback so that an external controlled scheduler can own the interleaving.
+//! Without a callback they behave exactly like `std`'s.
 use std::sync::RwLock;
 
-/// About to acquire the lock with the given id (its address).
+/// About to acquire (exclusively) the lock with the given id (its address).
 pub const LOCK_ACQUIRE: u32 = 1;
-/// The lock with the given id was released.
+/// The lock with the given id was released (exclusive or shared).
 pub const LOCK_RELEASED: u32 = 2;
+/// About to acquire the reader-writer lock with the given id for reading.
+pub const RW_READ_ACQUIRE: u32 = 3;
+/// About to perform an atomic operation on the cell with the given id.
+pub const ATOMIC_OP: u32 = 5;
+/// About to *try* to acquire the lock with the given id (never blocks).
+pub const TRY_LOCK: u32 = 6;
+/// A `try_*` acquisition of the lock with the given id succeeded (exclusive).
+pub const TRY_ACQUIRED: u32 = 7;
+/// A `try_read` acquisition of the lock with the given id succeeded (shared).
+pub const TRY_ACQUIRED_READ: u32 = 8;
 
 static CALLBACK: RwLock<Option<fn(u32, usize)>> = RwLock::new(None);
 
@@ -26,57 +37,381 @@ fn emit(kind: u32, id: usize) {
 
 /// Drop-in replacements for `std::sync` items.
 pub mod sync {
-    pub use std::sync::Arc;
-    use std::sync::{LockResult, PoisonError};
+    pub use std::sync::*;
+
+    fn map_guard<G, H>(r: LockResult<G>, f: impl FnOnce(G) -> H) -> LockResult<H> {
+        match r {
+            Ok(g) => Ok(f(g)),
+            Err(p) => Err(PoisonError::new(f(p.into_inner()))),
+        }
+    }
+
+    fn map_try<G, H>(r: TryLockResult<G>, f: impl FnOnce(G) -> H) -> TryLockResult<H> {
+        match r {
+            Ok(g) => Ok(f(g)),
+            Err(TryLockError::Poisoned(p)) => {
+                Err(TryLockError::Poisoned(PoisonError::new(f(p.into_inner()))))
+            }
+            Err(TryLockError::WouldBlock) => Err(TryLockError::WouldBlock),
+        }
+    }
 
     /// `std::sync::Mutex` that reports lock/unlock.
     #[derive(Debug, Default)]
-    pub struct Mutex<T>(std::sync::Mutex<T>);
+    pub struct Mutex<T: ?Sized>(std::sync::Mutex<T>);
 
     /// Guard of [`Mutex`].
     #[derive(Debug)]
-    pub struct MutexGuard<'a, T> {
+    pub struct MutexGuard<'a, T: ?Sized> {
         inner: Option<std::sync::MutexGuard<'a, T>>,
         id: usize,
     }
 
     impl<T> Mutex<T> {
         /// See `std::sync::Mutex::new`.
-        pub fn new(t: T) -> Self {
+        pub const fn new(t: T) -> Self {
             Mutex(std::sync::Mutex::new(t))
+        }
+
+        /// See `std::sync::Mutex::into_inner`.
+        pub fn into_inner(self) -> LockResult<T> {
+            self.0.into_inner()
+        }
+    }
+
+    impl<T> From<T> for Mutex<T> {
+        fn from(t: T) -> Self {
+            Mutex::new(t)
+        }
+    }
+
+    impl<T: ?Sized> Mutex<T> {
+        fn id(&self) -> usize {
+            self as *const Self as *const () as usize
         }
 
         /// See `std::sync::Mutex::lock`.
         pub fn lock(&self) -> LockResult<MutexGuard<'_, T>> {
-            let id = self as *const _ as usize;
+            let id = self.id();
             super::emit(super::LOCK_ACQUIRE, id);
-            match self.0.lock() {
-                Ok(g) => Ok(MutexGuard { inner: Some(g), id }),
-                Err(p) => Err(PoisonError::new(MutexGuard {
-                    inner: Some(p.into_inner()),
-                    id,
-                })),
+            map_guard(self.0.lock(), |g| MutexGuard { inner: Some(g), id })
+        }
+
+        /// See `std::sync::Mutex::try_lock`.
+        pub fn try_lock(&self) -> TryLockResult<MutexGuard<'_, T>> {
+            let id = self.id();
+            super::emit(super::TRY_LOCK, id);
+            let r = self.0.try_lock();
+            if !matches!(r, Err(TryLockError::WouldBlock)) {
+                super::emit(super::TRY_ACQUIRED, id);
             }
+            map_try(r, |g| MutexGuard { inner: Some(g), id })
+        }
+
+        /// See `std::sync::Mutex::is_poisoned`.
+        pub fn is_poisoned(&self) -> bool {
+            self.0.is_poisoned()
+        }
+
+        /// See `std::sync::Mutex::get_mut`.
+        pub fn get_mut(&mut self) -> LockResult<&mut T> {
+            self.0.get_mut()
         }
     }
 
-    impl<T> std::ops::Deref for MutexGuard<'_, T> {
+    impl<T: ?Sized> std::ops::Deref for MutexGuard<'_, T> {
         type Target = T;
         fn deref(&self) -> &T {
             self.inner.as_ref().expect("present until drop")
         }
     }
 
-    impl<T> std::ops::DerefMut for MutexGuard<'_, T> {
+    impl<T: ?Sized> std::ops::DerefMut for MutexGuard<'_, T> {
         fn deref_mut(&mut self) -> &mut T {
             self.inner.as_mut().expect("present until drop")
         }
     }
 
-    impl<T> Drop for MutexGuard<'_, T> {
+    impl<T: ?Sized> Drop for MutexGuard<'_, T> {
         fn drop(&mut self) {
             drop(self.inner.take());
             super::emit(super::LOCK_RELEASED, self.id);
+        }
+    }
+
+    /// `std::sync::RwLock` that reports lock/unlock.
+    #[derive(Debug, Default)]
+    pub struct RwLock<T: ?Sized>(std::sync::RwLock<T>);
+
+    /// Read guard of [`RwLock`].
+    #[derive(Debug)]
+    pub struct RwLockReadGuard<'a, T: ?Sized> {
+        inner: Option<std::sync::RwLockReadGuard<'a, T>>,
+        id: usize,
+    }
+
+    /// Write guard of [`RwLock`].
+    #[derive(Debug)]
+    pub struct RwLockWriteGuard<'a, T: ?Sized> {
+        inner: Option<std::sync::RwLockWriteGuard<'a, T>>,
+        id: usize,
+    }
+
+    impl<T> RwLock<T> {
+        /// See `std::sync::RwLock::new`.
+        pub const fn new(t: T) -> Self {
+            RwLock(std::sync::RwLock::new(t))
+        }
+
+        /// See `std::sync::RwLock::into_inner`.
+        pub fn into_inner(self) -> LockResult<T> {
+            self.0.into_inner()
+        }
+    }
+
+    impl<T> From<T> for RwLock<T> {
+        fn from(t: T) -> Self {
+            RwLock::new(t)
+        }
+    }
+
+    impl<T: ?Sized> RwLock<T> {
+        fn id(&self) -> usize {
+            self as *const Self as *const () as usize
+        }
+
+        /// See `std::sync::RwLock::read`.
+        pub fn read(&self) -> LockResult<RwLockReadGuard<'_, T>> {
+            let id = self.id();
+            super::emit(super::RW_READ_ACQUIRE, id);
+            map_guard(self.0.read(), |g| RwLockReadGuard { inner: Some(g), id })
+        }
+
+        /// See `std::sync::RwLock::write`.
+        pub fn write(&self) -> LockResult<RwLockWriteGuard<'_, T>> {
+            let id = self.id();
+            super::emit(super::LOCK_ACQUIRE, id);
+            map_guard(self.0.write(), |g| RwLockWriteGuard { inner: Some(g), id })
+        }
+
+        /// See `std::sync::RwLock::try_read`.
+        pub fn try_read(&self) -> TryLockResult<RwLockReadGuard<'_, T>> {
+            let id = self.id();
+            super::emit(super::TRY_LOCK, id);
+            let r = self.0.try_read();
+            if !matches!(r, Err(TryLockError::WouldBlock)) {
+                super::emit(super::TRY_ACQUIRED_READ, id);
+            }
+            map_try(r, |g| RwLockReadGuard { inner: Some(g), id })
+        }
+
+        /// See `std::sync::RwLock::try_write`.
+        pub fn try_write(&self) -> TryLockResult<RwLockWriteGuard<'_, T>> {
+            let id = self.id();
+            super::emit(super::TRY_LOCK, id);
+            let r = self.0.try_write();
+            if !matches!(r, Err(TryLockError::WouldBlock)) {
+                super::emit(super::TRY_ACQUIRED, id);
+            }
+            map_try(r, |g| RwLockWriteGuard { inner: Some(g), id })
+        }
+
+        /// See `std::sync::RwLock::is_poisoned`.
+        pub fn is_poisoned(&self) -> bool {
+            self.0.is_poisoned()
+        }
+
+        /// See `std::sync::RwLock::get_mut`.
+        pub fn get_mut(&mut self) -> LockResult<&mut T> {
+            self.0.get_mut()
+        }
+    }
+
+    impl<T: ?Sized> std::ops::Deref for RwLockReadGuard<'_, T> {
+        type Target = T;
+        fn deref(&self) -> &T {
+            self.inner.as_ref().expect("present until drop")
+        }
+    }
+
+    impl<T: ?Sized> Drop for RwLockReadGuard<'_, T> {
+        fn drop(&mut self) {
+            drop(self.inner.take());
+            super::emit(super::LOCK_RELEASED, self.id);
+        }
+    }
+
+    impl<T: ?Sized> std::ops::Deref for RwLockWriteGuard<'_, T> {
+        type Target = T;
+        fn deref(&self) -> &T {
+            self.inner.as_ref().expect("present until drop")
+        }
+    }
+
+    impl<T: ?Sized> std::ops::DerefMut for RwLockWriteGuard<'_, T> {
+        fn deref_mut(&mut self) -> &mut T {
+            self.inner.as_mut().expect("present until drop")
+        }
+    }
+
+    impl<T: ?Sized> Drop for RwLockWriteGuard<'_, T> {
+        fn drop(&mut self) {
+            drop(self.inner.take());
+            super::emit(super::LOCK_RELEASED, self.id);
+        }
+    }
+
+    /// Drop-in replacements for `std::sync::atomic` items: every operation is a reported point.
+    pub mod atomic {
+        pub use std::sync::atomic::*;
+
+        macro_rules! hooked_atomic {
+            ($name:ident, $prim:ty) => {
+                /// Reporting wrapper of the `std` atomic of the same name.
+                #[derive(Debug, Default)]
+                pub struct $name(std::sync::atomic::$name);
+
+                impl $name {
+                    /// See `std`.
+                    pub const fn new(v: $prim) -> Self {
+                        $name(std::sync::atomic::$name::new(v))
+                    }
+                    fn point(&self) {
+                        super::super::emit(super::super::ATOMIC_OP, self as *const Self as usize);
+                    }
+                    /// See `std`.
+                    pub fn load(&self, o: Ordering) -> $prim {
+                        self.point();
+                        self.0.load(o)
+                    }
+                    /// See `std`.
+                    pub fn store(&self, v: $prim, o: Ordering) {
+                        self.point();
+                        self.0.store(v, o)
+                    }
+                    /// See `std`.
+                    pub fn swap(&self, v: $prim, o: Ordering) -> $prim {
+                        self.point();
+                        self.0.swap(v, o)
+                    }
+                    /// See `std`.
+                    pub fn compare_exchange(
+                        &self,
+                        c: $prim,
+                        n: $prim,
+                        s: Ordering,
+                        f: Ordering,
+                    ) -> Result<$prim, $prim> {
+                        self.point();
+                        self.0.compare_exchange(c, n, s, f)
+                    }
+                    /// See `std` (never fails spuriously here).
+                    pub fn compare_exchange_weak(
+                        &self,
+                        c: $prim,
+                        n: $prim,
+                        s: Ordering,
+                        f: Ordering,
+                    ) -> Result<$prim, $prim> {
+                        self.point();
+                        self.0.compare_exchange(c, n, s, f)
+                    }
+                    /// See `std`.
+                    pub fn fetch_update<F: FnMut($prim) -> Option<$prim>>(
+                        &self,
+                        s: Ordering,
+                        f: Ordering,
+                        g: F,
+                    ) -> Result<$prim, $prim> {
+                        self.point();
+                        self.0.fetch_update(s, f, g)
+                    }
+                    /// See `std`.
+                    pub fn into_inner(self) -> $prim {
+                        self.0.into_inner()
+                    }
+                    /// See `std`.
+                    pub fn get_mut(&mut self) -> &mut $prim {
+                        self.0.get_mut()
+                    }
+                }
+
+                impl From<$prim> for $name {
+                    fn from(v: $prim) -> Self {
+                        $name::new(v)
+                    }
+                }
+            };
+        }
+
+        macro_rules! hooked_atomic_int {
+            ($name:ident, $prim:ty) => {
+                hooked_atomic!($name, $prim);
+                impl $name {
+                    /// See `std`.
+                    pub fn fetch_add(&self, v: $prim, o: Ordering) -> $prim {
+                        self.point();
+                        self.0.fetch_add(v, o)
+                    }
+                    /// See `std`.
+                    pub fn fetch_sub(&self, v: $prim, o: Ordering) -> $prim {
+                        self.point();
+                        self.0.fetch_sub(v, o)
+                    }
+                    /// See `std`.
+                    pub fn fetch_max(&self, v: $prim, o: Ordering) -> $prim {
+                        self.point();
+                        self.0.fetch_max(v, o)
+                    }
+                    /// See `std`.
+                    pub fn fetch_min(&self, v: $prim, o: Ordering) -> $prim {
+                        self.point();
+                        self.0.fetch_min(v, o)
+                    }
+                    /// See `std`.
+                    pub fn fetch_and(&self, v: $prim, o: Ordering) -> $prim {
+                        self.point();
+                        self.0.fetch_and(v, o)
+                    }
+                    /// See `std`.
+                    pub fn fetch_or(&self, v: $prim, o: Ordering) -> $prim {
+                        self.point();
+                        self.0.fetch_or(v, o)
+                    }
+                    /// See `std`.
+                    pub fn fetch_xor(&self, v: $prim, o: Ordering) -> $prim {
+                        self.point();
+                        self.0.fetch_xor(v, o)
+                    }
+                }
+            };
+        }
+
+        hooked_atomic_int!(AtomicUsize, usize);
+        hooked_atomic_int!(AtomicIsize, isize);
+        hooked_atomic_int!(AtomicU64, u64);
+        hooked_atomic_int!(AtomicI64, i64);
+        hooked_atomic_int!(AtomicU32, u32);
+        hooked_atomic_int!(AtomicI32, i32);
+        hooked_atomic_int!(AtomicU8, u8);
+        hooked_atomic!(AtomicBool, bool);
+
+        impl AtomicBool {
+            /// See `std`.
+            pub fn fetch_and(&self, v: bool, o: Ordering) -> bool {
+                self.point();
+                self.0.fetch_and(v, o)
+            }
+            /// See `std`.
+            pub fn fetch_or(&self, v: bool, o: Ordering) -> bool {
+                self.point();
+                self.0.fetch_or(v, o)
+            }
+            /// See `std`.
+            pub fn fetch_xor(&self, v: bool, o: Ordering) -> bool {
+                self.point();
+                self.0.fetch_xor(v, o)
+            }
         }
     }
 }
